@@ -1,0 +1,46 @@
+//go:build verif
+
+package layout
+
+// Contracts for gocv (comment-only; see /verif/DESIGN.md).  No executable code.
+
+// ---- C11: header/footer exclusion only deletes repeated marginal text ----
+
+//@ func containsPage results (r)
+//@   property C11
+//@   flags pure
+//@   ensures r == (exists k int :: 0 <= k && k < len(pages) && pages[k] == pageIndex)
+//@   loop 0:
+//@     invariant forall k int :: {pages[k]} 0 <= k && k < $i ==> pages[k] != pageIndex
+
+//@ func textsMatch results (r)
+//@   property C11
+//@   flags pure
+
+// A fragment is reported as header/footer only if a region detected for THIS page exists such that the fragment lies in the
+// top (resp. bottom) band and (the page is character-level or its text matches the region's repeated text / page-number pattern).
+//@ spec func inTopBand(fy real, fh real, minY real, maxY real, band real, inverted bool) bool = (inverted ? fy - minY : maxY - (fy + fh)) < band
+//@ spec func inBottomBand(fy real, fh real, minY real, maxY real, band real, inverted bool) bool = (inverted ? maxY - (fy + fh) : fy - minY) < band
+//@ func (*HeaderFooterResult) isInHeaderFooter results (res)
+//@   property C11
+//@   flags pure
+//@   ensures only_if: res ==> ((exists k int :: 0 <= k && k < len(r.Headers) && containsPage(r.Headers[k].PageIndices, pageIndex) && inTopBand(frag.Y, frag.Height, minY, maxY, headerRegion, invertedCoords) && (charLevel || textsMatch(frag.Text, r.Headers[k].Text, r.Headers[k].IsPageNumber)))
+//@            || (exists k int :: 0 <= k && k < len(r.Footers) && containsPage(r.Footers[k].PageIndices, pageIndex) && inBottomBand(frag.Y, frag.Height, minY, maxY, footerRegion, invertedCoords) && (charLevel || textsMatch(frag.Text, r.Footers[k].Text, r.Footers[k].IsPageNumber))))
+//@   ensures no_regions: len(r.Headers) == 0 && len(r.Footers) == 0 ==> !res
+//@   ensures body_band: !inTopBand(frag.Y, frag.Height, minY, maxY, headerRegion, invertedCoords) && !inBottomBand(frag.Y, frag.Height, minY, maxY, footerRegion, invertedCoords) ==> !res
+
+// number of fragments among the first n that are kept
+//@ spec rec func hfKept(fr []text.TextFragment, n int, r HeaderFooterResult, pageIndex int, minY real, maxY real, hr real, fo real, inv bool, cl bool) int = n <= 0 ? 0 : hfKept(fr, n - 1, r, pageIndex, minY, maxY, hr, fo, inv, cl) + (r.isInHeaderFooter(pageIndex, fr[n-1], minY, maxY, hr, fo, inv, cl) ? 0 : 1)
+
+// The result is exactly the sub-sequence of kept fragments: same order, nothing invented, nothing duplicated.
+//@ func (*HeaderFooterResult) FilterFragments results (res)
+//@   property C11
+//@   flags readonly
+//@   ensures unchanged_when_nil_or_empty: isnil(r) || len(fragments) == 0 ==> same(res, fragments)
+//@   ensures only_deletes: len(res) <= len(fragments)
+//@   ensures subsequence: !isnil(r) && len(fragments) > 0 ==> exists minY real, maxY real, hr real, fo real, inv bool, cl bool ::
+//@            len(res) == hfKept(fragments, len(fragments), r, pageIndex, minY, maxY, hr, fo, inv, cl)
+//@            && (forall j int :: {fragments[j]} 0 <= j && j < len(fragments) && !r.isInHeaderFooter(pageIndex, fragments[j], minY, maxY, hr, fo, inv, cl) ==> res[hfKept(fragments, j, r, pageIndex, minY, maxY, hr, fo, inv, cl)] == fragments[j])
+//@   loop 1:
+//@     invariant len(filtered) == hfKept(fragments, $i, r, pageIndex, minY, maxY, headerRegion, footerRegion, invertedCoords, charLevel) && len(filtered) <= $i
+//@     invariant forall j int :: {fragments[j]} 0 <= j && j < $i && !r.isInHeaderFooter(pageIndex, fragments[j], minY, maxY, headerRegion, footerRegion, invertedCoords, charLevel) ==> hfKept(fragments, j, r, pageIndex, minY, maxY, headerRegion, footerRegion, invertedCoords, charLevel) < len(filtered) && filtered[hfKept(fragments, j, r, pageIndex, minY, maxY, headerRegion, footerRegion, invertedCoords, charLevel)] == fragments[j]
